@@ -14,6 +14,11 @@ VARIABLE l
 
 Say(tid, v) == PrintT(<<"VERDICT", tid, v>>)
 
+\* A named deviation class excuses an observation only if the deviating mechanism, as transcribed in the
+\* Impl model, reproduces what the real code reported for this very case; a report (or silence) the model
+\* does not predict is judged as a violation even when the case belongs to a known class.
+ModelReproduces(o) == o.pz.first = ImplFirst(o.case)
+
 Judge(o) ==
     LET c == o.case
         k == o.pz.first
@@ -21,11 +26,11 @@ Judge(o) ==
     IN /\ (IF RefOutcome(c) = o.cpy.exc /\ (raises \/ o.cpy.rtype = RefType(c)) THEN TRUE
            ELSE Say(o.tid, "oracle:RefOutcome=" \o RefOutcome(c) \o " real=" \o o.cpy.exc))
        /\ (IF raises /\ k = "none"
-           THEN (IF DevMissed(c, k) # "no" THEN Say(o.tid, "dev:" \o DevMissed(c, k))
+           THEN (IF DevMissed(c, k) # "no" /\ ModelReproduces(o) THEN Say(o.tid, "dev:" \o DevMissed(c, k))
                  ELSE Say(o.tid, "viol:ReportsWhenRaises"))
            ELSE TRUE)
        /\ (IF ~raises /\ k # "none" /\ ~Excused(c, k)
-           THEN (IF DevFalse(c, k) # "no" THEN Say(o.tid, "dev:" \o DevFalse(c, k))
+           THEN (IF DevFalse(c, k) # "no" /\ ModelReproduces(o) THEN Say(o.tid, "dev:" \o DevFalse(c, k))
                  ELSE Say(o.tid, "viol:SilentWhenOk"))
            ELSE TRUE)
        /\ (IF o.pz.crash THEN Say(o.tid, "viol:Exception")
